@@ -63,6 +63,13 @@ class C02(Prop):
                 v1 = variants(r, v0)
                 if v1 == v0:
                     v1 = v0 + b"x"
+                if api == "stand" and r.chance(1, 5):
+                    # a standalone file is compared byte for byte: line endings are bytes like any other
+                    ls = [l for l in G.gen_text(r, maxlines=4).split(b"\n")] + [b"a,b,c", b"1,2,3"]
+                    v0 = b"\r\n".join(ls) + r.choice([b"", b"\r\n", b"\n"])
+                    v1 = r.choice([v0.replace(b"\r\n", b"\n"), v0.replace(b"\r\n", b"\n", 1), v0.replace(b"\r", b""), v0.replace(b"\r\n", b"\r")])
+                    if r.chance(1, 2):
+                        v0, v1 = v1, v0
                 if api == "snap" and r.chance(1, 8):
                     # the stored text holds a line that only LOOKS like the terminator (padded); the received text is what a reader
                     # that mistook it for the terminator would return
